@@ -286,12 +286,12 @@ Fixpoint kv_rename (fuel : nat) (st : kv) (o n : str) : kv * option err :=
   match fuel with
   | O => (st, Some (Bare EOTHER))   (* out of fuel: excluded by the theorems' statements *)
   | Datatypes.S fuel' =>
+    if negb (valid_path o) || negb (valid_path n) then (st, Some (LinkErr o n EINVAL))
+    else
     let '(st1, r) := get_file st o in
     match r with
     | inr e => (st1, Some (wrap_link o n e))
     | inl fo =>
-      if negb (valid_path n) then (st1, Some (LinkErr o n EINVAL))
-      else
         (* oldFile.Stat(): a regular file's handle Stat loads the data (error ignored, memoised) *)
         let '(st1, fo) := if is_regular (f_mode fo) then (let '(s, f', _) := f_data st1 fo in (s, f')) else (st1, fo) in
         let '(st2, perr) :=
